@@ -482,6 +482,218 @@ def op_s_later_array_expr():
     return _later_calls(later_array2, (_X3,), mutate, restore)
 
 
+# ------------------------------------------------------------------------------------------ later calls: shared memory
+# The script refers to an object V that shares memory with a mutable base B held by someone else (coq/Determinism/Alias.v:
+# the aliasing relation (value, base)); after decoration B is written in place -- V itself is never touched and may be read-only.
+
+def _seen(v):
+    try:
+        if isinstance(v, onnx.TensorProto):
+            v = numpy_helper.to_array(v)
+        elif hasattr(v, "numpy") and not isinstance(v, np.ndarray):
+            v = v.numpy()
+        return repr(np.asarray(v).tolist()).encode()
+    except Exception as e:  # noqa: BLE001
+        return ("ERR " + type(e).__name__).encode()
+
+
+def _alias_later(make, use):
+    g = globals()
+    value, base, mutate, restore = make()
+    g["G_ALIAS"] = value
+    extra = {}
+    try:
+        if use == "expr":
+            @script(default_opset=op)
+            def alias_expr(x: FLOAT[None]) -> FLOAT[...]:
+                return x + G_ALIAS  # noqa: F821
+            f = alias_expr
+        elif use == "attr":
+            @script(default_opset=op)
+            def alias_attr(x: FLOAT[None]) -> FLOAT[...]:
+                return x + op.Constant(value=G_ALIAS)  # noqa: F821
+            f = alias_attr
+        else:
+            @script(default_opset=op)
+            def alias_sub(x: FLOAT[None]) -> FLOAT[...]:
+                return x + G_ALIAS[0]  # noqa: F821
+            f = alias_sub
+        arrs = [a for a in (value if isinstance(value, (tuple, list)) else [value]) if isinstance(a, np.ndarray)]
+        extra["obs_writeable"] = repr(all(a.flags.writeable for a in arrs) if arrs else None).encode()
+        extra["obs_shares"] = repr(any(np.shares_memory(a, base) for a in arrs) if arrs and isinstance(base, np.ndarray) else None).encode()
+        extra["obs_seen_before"] = _seen(value)
+
+        def mutate2():
+            mutate()
+            extra["obs_seen_after"] = _seen(value)
+
+        out = _later_calls(f, (_X3,), mutate2, restore)
+    finally:
+        g.pop("G_ALIAS", None)
+    out.update(extra)
+    return out
+
+
+def _af32(*xs):
+    return np.array(xs, dtype=np.float32)
+
+
+def op_s_alias_ro_view():
+    """a read-only view (writeable=False) of an array its owner keeps writable; the owner writes the base"""
+    def make():
+        b = _af32(1, 2, 3)
+        v = b.view()
+        v.flags.writeable = False
+        return v, b, lambda: b.__setitem__(0, 100.0), lambda: None
+    return _alias_later(make, "expr")
+
+
+def op_s_alias_ro_view_attr():
+    """the same read-only view used as Constant(value=G)"""
+    def make():
+        b = _af32(1, 2, 3)
+        v = b.view()
+        v.flags.writeable = False
+        return v, b, lambda: b.__setitem__(2, -9.0), lambda: None
+    return _alias_later(make, "attr")
+
+
+def op_s_alias_broadcast():
+    """np.broadcast_to(base, (3,)): a read-only view with stride 0"""
+    def make():
+        b = _af32(1.5)
+        return np.broadcast_to(b, (3,)), b, lambda: b.__setitem__(0, 64.0), lambda: None
+    return _alias_later(make, "expr")
+
+
+def op_s_alias_frombuffer():
+    """np.frombuffer(bytearray): the array is a window on the bytearray, which is written"""
+    def make():
+        ba = bytearray(_af32(1, 2, 3).tobytes())
+        v = np.frombuffer(ba, dtype=np.float32)
+
+        def mutate():
+            ba[0:4] = np.float32(100.0).tobytes()
+        return v, np.frombuffer(ba, dtype=np.float32), mutate, lambda: None
+    return _alias_later(make, "expr")
+
+
+def op_s_alias_frombuffer_ro():
+    """np.frombuffer(read-only memoryview of a bytearray): read-only array, writable storage"""
+    def make():
+        ba = bytearray(_af32(1, 2, 3).tobytes())
+        v = np.frombuffer(memoryview(ba).toreadonly(), dtype=np.float32)
+
+        def mutate():
+            ba[4:8] = np.float32(-31.0).tobytes()
+        return v, np.frombuffer(ba, dtype=np.float32), mutate, lambda: None
+    return _alias_later(make, "expr")
+
+
+def op_s_alias_slice():
+    """a slice view base[1:4] (writable itself); the base is written"""
+    def make():
+        b = _af32(9, 1, 2, 3, 9)
+        return b[1:4], b, lambda: b.__setitem__(1, 100.0), lambda: None
+    return _alias_later(make, "expr")
+
+
+def op_s_alias_transposed():
+    """a transposed (non-contiguous) view of a 2-d base"""
+    def make():
+        b = np.array([[1.0, 7.0], [2.0, 8.0], [3.0, 9.0]], dtype=np.float32)
+        return b.T, b, lambda: b.__setitem__((2, 0), 55.0), lambda: None
+    return _alias_later(make, "expr")
+
+
+def op_s_alias_0d():
+    """a 0-d view of a one-element base"""
+    def make():
+        b = _af32(5)
+        return b.reshape(()), b, lambda: b.__setitem__(0, 100.0), lambda: None
+    return _alias_later(make, "expr")
+
+
+def op_s_alias_in_list():
+    """a list global holding an array (Constant(value=[a])); the array inside is written"""
+    def make():
+        b = _af32(1, 2, 3)
+        return [b], b, lambda: b.__setitem__(1, 100.0), lambda: None
+    return _alias_later(make, "attr")
+
+
+def op_s_alias_in_tuple():
+    """a tuple global holding an array, used as an operand; the array inside is written (the tuple cannot be)"""
+    def make():
+        b = _af32(1, 2, 3)
+        return (b,), b, lambda: b.__setitem__(0, 100.0), lambda: None
+    return _alias_later(make, "expr")
+
+
+def op_s_alias_in_tuple_sub():
+    """a tuple global holding an array, G[0] used as an operand"""
+    def make():
+        b = _af32(1, 2, 3)
+        return (b, b), b, lambda: b.__setitem__(2, 100.0), lambda: None
+    return _alias_later(make, "sub")
+
+
+def op_s_alias_memmap():
+    """a read-only memory map of a file that another (r+) map of the same file writes"""
+    import tempfile
+    holder = {}
+
+    def make():
+        d = tempfile.mkdtemp(prefix="c14mm")
+        fn = __import__("os").path.join(d, "t.bin")
+        _af32(1, 2, 3).tofile(fn)
+        w = np.memmap(fn, dtype=np.float32, mode="r+")
+        v = np.memmap(fn, dtype=np.float32, mode="r")
+        holder["d"] = d
+
+        def mutate():
+            w[0] = 100.0
+            w.flush()
+        return v, w, mutate, lambda: None
+    try:
+        return _alias_later(make, "expr")
+    finally:
+        __import__("shutil").rmtree(holder.get("d", ""), ignore_errors=True)
+
+
+def op_s_alias_ro_owner():
+    """an array whose owner switched writeable off while the decorator ran, switches it on again later and writes"""
+    def make():
+        b = _af32(1, 2, 3)
+        b.flags.writeable = False
+
+        def mutate():
+            b.flags.writeable = True
+            b[1] = 100.0
+        return b, b, mutate, lambda: None
+    return _alias_later(make, "expr")
+
+
+def op_s_alias_tensorproto_attr():
+    """a TensorProto global used as Constant(value=G); its raw_data is replaced afterwards"""
+    def make():
+        tp = numpy_helper.from_array(_af32(1, 2, 3))
+
+        def mutate():
+            tp.raw_data = _af32(100, 2, 3).tobytes()
+        return tp, None, mutate, lambda: None
+    return _alias_later(make, "attr")
+
+
+def op_s_alias_irtensor_attr():
+    """an onnx_ir.Tensor global wrapping an array, used as Constant(value=G); the array is written afterwards"""
+    def make():
+        import onnx_ir
+        b = _af32(1, 2, 3)
+        return onnx_ir.tensor(b), b, lambda: b.__setitem__(0, 100.0), lambda: None
+    return _alias_later(make, "attr")
+
+
 def op_s_repeat_lib():
     """to_model_proto / to_function_proto on a small library: a thin wrapper in a custom domain that uses no standard operator
     itself, a function with attribute parameters (bound to their defaults in the model); exporting one function must not
@@ -806,6 +1018,85 @@ def op_m_pass_nofold():
 
 def op_m_pass_if():
     return _run_shared_pass(_if_model(False))
+
+
+def op_x_pass_fold_then_raise():
+    """the shared FoldConstantsPass object fails PART-WAY: Add(a, b) of two initializers is folded (the pass has modified the model),
+    then the partial evaluator of Gather(Shape(x), [5]) on a rank-2 input raises"""
+    import onnx.parser
+    text = """
+<ir_version: 8, opset_import: ["" : 18]>
+broken (float[2,3] x) => (float[2,3] y, int64[1] d)
+<float[2,3] a = {1,2,3,4,5,6}, float[2,3] b = {1,1,1,1,1,1}, int64[1] five = {5}>
+{
+    ab = Add(a, b)
+    y = Mul(x, ab)
+    s = Shape(x)
+    d = Gather<axis=0>(s, five)
+}
+"""
+    return _run_shared_pass(onnx.parser.parse_model(text))
+
+
+def op_m_pass_nofold_unnamed():
+    """nothing to fold, nodes without names: what the shared pass returns (and whether it sends the model through NameFixPass)
+    shows a stale `modified` state"""
+    import onnx.parser
+    text = """
+<ir_version: 8, opset_import: ["" : 18]>
+target (float[N,3] x, float[N,3] w) => (float[N,3] y)
+{
+    t = Mul(x, w)
+    u = Relu(t)
+    y = Add(u, x)
+}
+"""
+    return _run_shared_pass(onnx.parser.parse_model(text))
+
+
+# one RewriteRuleSet object reused by every call in the process: the shipped Shape->Reshape materialisation rules (new values get
+# generated names) plus a user rule whose rewrite() raises on Sign(x)
+_SHARED_SET = None
+
+
+def _shared_rule_set():
+    global _SHARED_SET
+    if _SHARED_SET is None:
+        from onnxscript.rewriter import pattern
+        from onnxscript.rewriter.rules.common import _materialize_reshape_shape
+
+        def target(op_, x):
+            return op_.Sign(x)
+
+        def repl(op_, x):
+            raise RuntimeError("replacement failed")
+
+        _SHARED_SET = pattern.RewriteRuleSet(list(_materialize_reshape_shape.rules.rules) + [pattern.RewriteRule(target, repl)])
+    return _SHARED_SET
+
+
+def _run_shared_set(model_proto):
+    from onnxscript import ir
+    m = ir.serde.deserialize_model(model_proto)
+    n = _shared_rule_set().apply_to_model(m)
+    return {"model": _ser(ir.serde.serialize_model(m)), "flag": ("applied %d" % n).encode()}
+
+
+def op_m_set_materialize():
+    return _run_shared_set(_materialize_model([2, "N", 4]))
+
+
+def op_m_set_materialize_b():
+    return _run_shared_set(_materialize_model([5, 7]))
+
+
+def op_x_set_raises_midway():
+    """the shared rule set fails PART-WAY: the Shape->Reshape chain is rewritten first (a new value was named), then Sign(y) raises"""
+    nodes = [helper.make_node("Shape", ["x"], ["sh"]),
+             helper.make_node("Reshape", ["x", "sh"], ["r"]),
+             helper.make_node("Sign", ["r"], ["y"])]
+    m = _model(nodes, [_vi("x", [3, 4])], [_vi("y", [3, 4])], vi=[_vi("sh", [2], TensorProto.INT64), _vi("r", [3, 4])])
+    return _run_shared_set(m)
 
 
 def op_x_opt_bad():
